@@ -11,8 +11,9 @@ for d in sorted(glob.glob('/verif/seeded/*/')):
     r = re.sub(r'\s+', ' ', m.get('check_result', '(not run yet)'))
     rows.append((k, s, r))
 n = len(rows)
-missed = sum('MISSED' in r for _, _, r in rows)
-noin = sum(('first run:' in r) and 'MISSED' not in r for _, _, r in rows)
+ismissed = lambda r: 'MISSED' in r or 'missed on the first run' in r
+missed = sum(ismissed(r) for _, _, r in rows)
+noin = sum(('first run:' in r) and not ismissed(r) for _, _, r in rows)
 still = sum(('no-failing-input-found' in r or 'obligation only' in r) and 'Now' not in r and 'now' not in r for _, _, r in rows)
 other = sum('not caught by ./check' in r for _, _, r in rows)
 head = '''## 13. Seeded changes: which check catches which change
@@ -21,7 +22,9 @@ Each change was written by a fresh sub-agent that saw only the property text and
 `/repo` (nothing from `/verif`), and was asked for a realistic edit that breaks the property, still imports and
 passes the unedited test suite, and needs something specific to manifest.  A second round asked for changes
 different in kind from the first (other functions, cooperating edits, shared helpers, boundary values); its
-directories are named `<id>-r2mN`.  Every change was re-verified by the coordinator (`tools/verify_seed.sh`: suite
+directories are named `<id>-r2mN`.  A third round (`<id>-r3mN`) asked for changes that need state carried between calls,
+exotic-but-valid encodings, boundary values or shared helpers (what it led to is summarised in §12c; six of its
+patches were rebased by hand after fix commits touched the same lines, the originals are kept beside them).  Every change was re-verified by the coordinator (`tools/verify_seed.sh`: suite
 result unchanged — 236 passed / 3 pre-existing failures — demo fails with the patch and passes without) and kept
 under `seeded/` (`patch.diff`, `demo.py`, `meta.json`).  The check of the property was then run against a scratch
 worktree with the patch applied (`tools/try_seed.sh seeded/<dir>/patch.diff <id>`; none of these changes was ever
